@@ -352,9 +352,8 @@ fn data_verdicts(s: &cedar_policy::Schema) -> Vec<bool> {
 }
 
 pub fn run(tier: Tier, replay_file: Option<&str>) -> i32 {
-    if replay_file.is_some() {
-        eprintln!("C09 replay: re-run the check (the replay file holds both schema texts)");
-        return 2;
+    if let Some(p) = replay_file {
+        return replay_by_rerun("C09", p, || run(Tier::Quick, None));
     }
     let ctx = Ctx::new("C09", tier);
     quiet_panics();
